@@ -50,35 +50,63 @@ def _requires(C):
     return [('known_multi_pass_mode', z3.Or(*[_mode(C, m) for m in ('best', 'separate', 'joined', 'all')]))]
 
 
+def _raw(x):
+    return x.v if hasattr(x, 'v') else x
+
+
+def _filter_log(which):
+    def h(L):
+        L.set('farg' + which, L._st.lst(L.callargs[0]))
+        L.set('gf' + which, L._st.lst(_raw(L.result)))
+        L.set('nfilter', L.nfilter + 1)
+    return h
+
+
+def _resolve_log(L):
+    t = L.result
+    a, b = (t.items if hasattr(t, 'items') else t)
+    L.set('gjoined', L._st.lst(_raw(a)))
+    L.set('gsep', L._st.lst(_raw(b)))
+    L.set('rarg', L._st.lst(L.callargs[0]))
+    L.set('rdiff', L._e.num(L.callargs[1]))
+    L.set('nresolve', L.nresolve + 1)
+
+
 def _ensures(C, res):
+    """stated over the ghost log of the calls (what was de-duplicated, what was joined, what was written where), not over the
+    function's final locals: a path that skips a step leaves its ghost unset and fails the clause"""
     Fv = C.F
     e = C._e
     k, k2 = z3.Int('k'), z3.Int('k2')
-    first, second = Fv.filteredFirstPassRows, Fv.filteredSecondPassRows
-    cl = [('first_pass_file_is_filtered_from_first_pass_rows_only_unless_best', z3.Implies(z3.Not(_mode(C, 'best')), same_list(Fv.farg1, Fv.gfirst))),
+    first, second = Fv.gf1, Fv.gf2
+    joined, sep = Fv.gjoined, Fv.gsep
+    needs_join = z3.Not(_mode(C, 'separate'))
+    cl = [('both_passes_are_de_duplicated_once', Fv.nfilter == 2),
+          ('first_pass_file_is_filtered_from_first_pass_rows_only_unless_best', z3.Implies(z3.Not(_mode(C, 'best')), same_list(Fv.farg1, Fv.gfirst))),
           ('second_pass_file_is_filtered_from_second_pass_rows_only', same_list(Fv.farg2, Fv.gsecond)),
           ('separate_returns_filtered_first_pass_and_writes_filtered_second_pass_to_file_1',
-           z3.Implies(_mode(C, 'separate'), z3.And(same_list(res, first), Fv.writes1 == 1, Fv.writes2 == 0, same_list(Fv.file1, second))))]
-    if Fv.has('joinedRows'):
-        joined, sep = Fv.joinedRows, Fv.separateRows
-        cl += [('joined_returns_joined_rows_and_writes_unjoined_rows_to_file_1',
-                z3.Implies(_mode(C, 'joined'), z3.And(same_list(res, joined), Fv.writes1 == 1, Fv.writes2 == 0, same_list(Fv.file1, sep)))),
-               ('all_returns_joined_rows_and_writes_first_pass_to_file_1_and_second_pass_to_file_2',
-                z3.Implies(_mode(C, 'all'), z3.And(same_list(res, joined), Fv.writes1 == 1, Fv.writes2 == 1, same_list(Fv.file1, first),
-                                                   same_list(Fv.file2, second)))),
-               ('best_returns_rows_in_ascending_query_id', z3.Implies(_mode(C, 'best'), forall([k, k2], z3.Implies(
-                   z3.And(0 <= k, k <= k2, k2 < res.len), res[k].queryId <= res[k2].queryId), [MP(res.raw(k).t, res.raw(k2).t)]))),
-               ('best_writes_no_additional_file', z3.Implies(_mode(C, 'best'), z3.And(Fv.writes1 == 0, Fv.writes2 == 0)))]
-        so = C.note('last_sorted')
-        if so is not None and Fv.has('bestRows'):
-            best = Fv.bestRows
-            X = C._view_list(so['X'])
-            # every joined row and every first-pass row of a query without a joined row is in the result
-            cl.append(('best_contains_every_joined_row', z3.Implies(_mode(C, 'best'), forall(k, z3.Implies(rng(0, k, joined.len), z3.And(
-                0 <= so['pinv'](k), so['pinv'](k) < res.len, res.raw(so['pinv'](k)).t == joined.raw(k).t)), [joined.raw(k).t]))))
-            cl.append(('best_contains_first_pass_row_of_every_query_without_joined_row', z3.Implies(_mode(C, 'best'), forall(k, z3.Implies(
-                rng(0, k, best.len), z3.And(0 <= so['pinv'](joined.len + k), so['pinv'](joined.len + k) < res.len,
-                                            res.raw(so['pinv'](joined.len + k)).t == best.raw(k).t)), [best.raw(k).t]))))
+           z3.Implies(_mode(C, 'separate'), z3.And(same_list(res, first), Fv.writes1 == 1, Fv.writes2 == 0, same_list(Fv.file1, second)))),
+          ('join_runs_once_on_the_filtered_first_and_second_pass_rows_with_the_configured_maxDifference',
+           z3.Implies(needs_join, z3.And(Fv.nresolve == 1, Fv.rdiff == C.self.args.maxDifference, Fv.rarg.len == first.len + second.len,
+                                         forall(k, z3.Implies(rng(0, k, first.len), Fv.rarg.raw(k).t == first.raw(k).t), [first.raw(k).t]),
+                                         forall(k, z3.Implies(rng(0, k, second.len), Fv.rarg.raw(first.len + k).t == second.raw(k).t), [second.raw(k).t])))),
+          ('joined_returns_joined_rows_and_writes_unjoined_rows_to_file_1',
+           z3.Implies(_mode(C, 'joined'), z3.And(same_list(res, joined), Fv.writes1 == 1, Fv.writes2 == 0, same_list(Fv.file1, sep)))),
+          ('all_returns_joined_rows_and_writes_first_pass_to_file_1_and_second_pass_to_file_2',
+           z3.Implies(_mode(C, 'all'), z3.And(same_list(res, joined), Fv.writes1 == 1, Fv.writes2 == 1, same_list(Fv.file1, first),
+                                              same_list(Fv.file2, second)))),
+          ('best_returns_rows_in_ascending_query_id', z3.Implies(_mode(C, 'best'), forall([k, k2], z3.Implies(
+              z3.And(0 <= k, k <= k2, k2 < res.len), res[k].queryId <= res[k2].queryId), [MP(res.raw(k).t, res.raw(k2).t)]))),
+          ('best_writes_no_additional_file', z3.Implies(_mode(C, 'best'), z3.And(Fv.writes1 == 0, Fv.writes2 == 0)))]
+    so = C.note('last_sorted')
+    if so is not None and Fv.has('bestRows'):
+        best = Fv.bestRows
+        # every joined row and every first-pass row of a query without a joined row is in the result
+        cl.append(('best_contains_every_joined_row', z3.Implies(_mode(C, 'best'), forall(k, z3.Implies(rng(0, k, joined.len), z3.And(
+            0 <= so['pinv'](k), so['pinv'](k) < res.len, res.raw(so['pinv'](k)).t == joined.raw(k).t)), [joined.raw(k).t]))))
+        cl.append(('best_contains_first_pass_row_of_every_query_without_joined_row', z3.Implies(_mode(C, 'best'), forall(k, z3.Implies(
+            rng(0, k, best.len), z3.And(0 <= so['pinv'](joined.len + k), so['pinv'](joined.len + k) < res.len,
+                                        res.raw(so['pinv'](joined.len + k)).t == best.raw(k).t)), [best.raw(k).t]))))
     return cl
 
 
@@ -87,12 +115,15 @@ execute = FunctionSpec(
     file=F, qualname='_MultiPassWorkflowCoordinator.execute', params=dict(self=MP_, referenceMaps=LIST(OMAP), queryMaps=LIST(OMAP)), returns=LIST(ROW),
     requires=_requires, ensures=_ensures,
     ghost={'file1': _el, 'file2': _el, 'writes1': lambda C: z3.IntVal(0), 'writes2': lambda C: z3.IntVal(0),
-           'gfirst': _el, 'gsecond': _el, 'farg1': _el, 'farg2': _el},
-    ghost_at={'call#5': _log, 'call#8': _log, 'call#9': _log, 'call#10': _log,
-              'call#0': lambda L: L.set('gfirst', L._st.lst(L.result.v) if hasattr(L.result, 'v') else L.result),
-              'call#2': lambda L: L.set('gsecond', L.result.v),
-              'call#3': lambda L: L.set('farg1', L._st.lst(L.callargs[0])),
-              'call#4': lambda L: L.set('farg2', L._st.lst(L.callargs[0]))},
+           'gfirst': _el, 'gsecond': _el, 'farg1': _el, 'farg2': _el, 'gf1': _el, 'gf2': _el, 'gjoined': _el, 'gsep': _el, 'rarg': _el,
+           'rdiff': lambda C: z3.RealVal(-1), 'nfilter': lambda C: z3.IntVal(0), 'nresolve': lambda C: z3.IntVal(0)},
+    ghost_at={'call:saveAdditionalOutput#0': _log, 'call:saveAdditionalOutput#1': _log, 'call:saveAdditionalOutput#2': _log,
+              'call:saveAdditionalOutput#3': _log,
+              'call:execute#0': lambda L: L.set('gfirst', L._st.lst(L.result.v) if hasattr(L.result, 'v') else L.result),
+              'call:getSecondPassAlignmentRows#0': lambda L: L.set('gsecond', L.result.v),
+              'call:filterOutSubsequentAlignmentsForSingleQuery#0': _filter_log('1'),
+              'call:filterOutSubsequentAlignmentsForSingleQuery#1': _filter_log('2'),
+              'call:resolve#0': _resolve_log},
     serves=('C05', 'C08'),
     note="which row list is returned and which is written to which additional file, per output mode (ghost log of the writes); callee results are the "
          "same symbolic values in every mode, so main(all)=main(joined), _1(all)=main(separate), _2(all)=_1(separate) follow by congruence",
